@@ -33,8 +33,9 @@ type dsOpts struct {
 }
 
 type dataset struct {
-	quads []vh.GQuad
-	feat  map[string]bool
+	quads   []vh.GQuad
+	feat    map[string]bool
+	witness string // name of a hand-written encoder witness (witness.go); "" for generated cases
 }
 
 func iriT(s string) vh.GTerm { return vh.GTerm{Kind: vh.KIRI, IRI: s} }
